@@ -30,7 +30,7 @@ VARIABLES l,        \* position in Trace
 tvars == <<jvars, l, run, viol, gs, nexit, nruns>>
 
 TInit == /\ JInit /\ nJ = 0 /\ N = 1 /\ coe = FALSE
-         /\ deps = [j \in Jobs |-> <<>>] /\ cls = [j \in Jobs |-> j]
+         /\ deps = [j \in Jobs |-> <<>>] /\ cls = [j \in Jobs |-> j] /\ jc = [j \in Jobs |-> 1]
          /\ l = 1 /\ run = 0 /\ viol = {} /\ gs = {} /\ nexit = 0 /\ nruns = 0
 
 E == Trace[l]
@@ -44,6 +44,8 @@ TReset ==
   /\ nJ' = E.nj /\ N' = E.n /\ coe' = E.coe
   /\ deps' = [j \in Jobs |-> IF j <= E.nj THEN E.deps[j] ELSE <<>>]
   /\ cls' = [j \in Jobs |-> IF j <= E.nj THEN E.cls[j] ELSE j]
+  /\ jc' = [j \in Jobs |-> IF j <= E.nj /\ j <= Len(E.jc) THEN E.jc[j] ELSE 1]
+  /\ c2May' = FALSE /\ c2Done' = FALSE
   /\ sub' = {} /\ st' = [j \in Jobs |-> "pending"] /\ ctxMay' = FALSE /\ ctxDone' = FALSE /\ doomed' = {}
   /\ wait' = "open" /\ ctxAtCall' = FALSE /\ res' = <<"none">>
   /\ run' = E.run /\ gs' = {} /\ nexit' = 0 /\ nruns' = nruns + 1
@@ -55,7 +57,7 @@ TSubmit ==
      /\ sub' = sub \cup {j}
      /\ Record(IF j \in 1..nJ /\ j \notin sub /\ DepSet(j) \subseteq sub /\ wait = "open"
                THEN {} ELSE {V("HARNESS", "bad submit")})
-  /\ UNCHANGED <<nJ, N, coe, deps, cls, st, ctxMay, ctxDone, doomed, wait, ctxAtCall, res, run, gs, nexit, nruns>>
+  /\ UNCHANGED <<nJ, jc, N, coe, deps, cls, st, ctxMay, ctxDone, doomed, wait, ctxAtCall, res, run, gs, nexit, nruns, c2May, c2Done>>
 
 DepFailed(j) == \E d \in DepSet(j) : Failed(d)
 
@@ -74,7 +76,7 @@ TStart ==
      /\ gs' = gs \cup {E.g}
      \* C03: bodies run on the N workers only; a worker goroutine is replaced only after Goexit
      /\ TRUE
-  /\ UNCHANGED <<nJ, N, coe, deps, cls, sub, ctxMay, ctxDone, doomed, wait, ctxAtCall, res, run, nexit, nruns>>
+  /\ UNCHANGED <<nJ, jc, N, coe, deps, cls, sub, ctxMay, ctxDone, doomed, wait, ctxAtCall, res, run, nexit, nruns, c2May, c2Done>>
 
 TEnd ==
   /\ Is("end")
@@ -84,24 +86,37 @@ TEnd ==
      /\ Record((IF st[j] = "running" THEN {} ELSE {V("HARNESS", "end of a job that is not running")})
                \cup (IF Cardinality(gs) <= N + nexit THEN {}
                      ELSE {V("C03", "job bodies ran on more goroutines than N workers plus replacements")}))
-  /\ UNCHANGED <<nJ, N, coe, deps, cls, sub, ctxMay, ctxDone, doomed, wait, ctxAtCall, res, run, gs, nruns>>
+  /\ UNCHANGED <<nJ, jc, N, coe, deps, cls, sub, ctxMay, ctxDone, doomed, wait, ctxAtCall, res, run, gs, nruns, c2May, c2Done>>
 
 TCancelBegin ==
   /\ Is("cancel_begin")
   /\ ctxMay' = TRUE
-  /\ UNCHANGED <<nJ, N, coe, deps, cls, sub, st, ctxDone, doomed, wait, ctxAtCall, res, run, viol, gs, nexit, nruns>>
+  /\ UNCHANGED <<nJ, jc, N, coe, deps, cls, sub, st, ctxDone, doomed, wait, ctxAtCall, res, run, viol, gs, nexit, nruns, c2May, c2Done>>
 
 TCancel ==
   /\ Is("cancel")
   /\ ctxDone' = TRUE /\ ctxMay' = TRUE
   /\ doomed' = IF ctxDone THEN doomed ELSE DoomedSet
   /\ Record(IF ctxMay THEN {} ELSE {V("HARNESS", "cancel without cancel_begin")})
-  /\ UNCHANGED <<nJ, N, coe, deps, cls, sub, st, wait, ctxAtCall, res, run, gs, nexit, nruns>>
+  /\ UNCHANGED <<nJ, jc, N, coe, deps, cls, sub, st, wait, ctxAtCall, res, run, gs, nexit, nruns, c2May, c2Done>>
+
+\* the second context (jobs enqueued with it; Wait does not watch it)
+TCancel2Begin ==
+  /\ Is("cancel2_begin")
+  /\ c2May' = TRUE
+  /\ UNCHANGED <<nJ, jc, N, coe, deps, cls, sub, st, ctxMay, ctxDone, doomed, c2Done, wait, ctxAtCall, res, run, viol, gs, nexit, nruns>>
+
+TCancel2 ==
+  /\ Is("cancel2")
+  /\ c2Done' = TRUE /\ c2May' = TRUE
+  /\ doomed' = IF c2Done THEN doomed ELSE doomed \cup DoomedFor(2)
+  /\ Record(IF c2May THEN {} ELSE {V("HARNESS", "cancel2 without cancel2_begin")})
+  /\ UNCHANGED <<nJ, jc, N, coe, deps, cls, sub, st, ctxMay, ctxDone, wait, ctxAtCall, res, run, gs, nexit, nruns>>
 
 TWaitCall ==
   /\ Is("waitcall")
   /\ wait' = "called" /\ ctxAtCall' = ctxDone
-  /\ UNCHANGED <<nJ, N, coe, deps, cls, sub, st, ctxMay, ctxDone, doomed, res, run, viol, gs, nexit, nruns>>
+  /\ UNCHANGED <<nJ, jc, N, coe, deps, cls, sub, st, ctxMay, ctxDone, doomed, res, run, viol, gs, nexit, nruns, c2May, c2Done>>
 
 ResOf(e) == IF e.kind = "errs" THEN <<"errs", e.toks>> ELSE <<e.kind>>
 
@@ -114,7 +129,7 @@ TWaitRet ==
            ELSE {V(IF coe THEN "C08" ELSE "C07", "Wait result not allowed by the contract")})
           \cup (IF r = <<"nil">> /\ ctxAtCall
                 THEN {V("C09", "nil returned although the context was done before the call")} ELSE {}))
-  /\ UNCHANGED <<nJ, N, coe, deps, cls, sub, st, ctxMay, ctxDone, doomed, ctxAtCall, run, gs, nexit, nruns>>
+  /\ UNCHANGED <<nJ, jc, N, coe, deps, cls, sub, st, ctxMay, ctxDone, doomed, ctxAtCall, run, gs, nexit, nruns, c2May, c2Done>>
 
 \* C19: a State record emitted by the real scheduler (stamped inside Emitter.Emit)
 TState ==
@@ -132,6 +147,13 @@ TState ==
              THEN {V("C19", "state report after Wait returned from a finished scheduler")} ELSE {}))
   /\ UNCHANGED <<jvars, run, gs, nexit, nruns>>
 
+\* C03, "the capacity is real": the driver enqueued c jobs without dependencies, with a live context,
+\* on an otherwise idle scheduler with N >= c workers; p is the largest number of them that were
+\* ever in flight together (each waits for the others, up to a timeout)
+TCapacity == /\ Is("capacity")
+             /\ Record(IF E.p >= E.c THEN {}
+                       ELSE {V("C03", "runnable jobs did not run concurrently although workers should be free")})
+             /\ UNCHANGED <<jvars, run, gs, nexit, nruns>>
 THang == /\ Is("hang") /\ Record({V("C05", "caller stuck: " \o E.note)})
          /\ UNCHANGED <<jvars, run, gs, nexit, nruns>>
 TLeak == /\ Is("leak")
@@ -152,8 +174,8 @@ TDone == /\ l = Len(Trace) + 1 /\ l' = l + 1
          /\ PrintT(<<"TRACE-DONE", Len(Trace), nruns, ToJson(viol)>>)
          /\ UNCHANGED <<jvars, run, viol, gs, nexit, nruns>>
 
-TNext == TReset \/ TSubmit \/ TStart \/ TEnd \/ TCancelBegin \/ TCancel \/ TWaitCall \/ TWaitRet
-         \/ TState \/ THang \/ TLeak \/ TSlow \/ TQuiet \/ TInfo \/ TStale \/ TDone
+TNext == TReset \/ TSubmit \/ TStart \/ TEnd \/ TCancelBegin \/ TCancel \/ TCancel2Begin \/ TCancel2 \/ TWaitCall \/ TWaitRet
+         \/ TState \/ TCapacity \/ THang \/ TLeak \/ TSlow \/ TQuiet \/ TInfo \/ TStale \/ TDone
 
 TSpec == TInit /\ [][TNext]_tvars
 
